@@ -144,6 +144,12 @@ def evalV (prim : String) (p : List Nat) (ins : List (Nat × Nat)) : Res :=
         | [s, cy, _] => (s.2 + cy.2) % 2 ^ w == tot
         | [s, _] => s.2 == tot
         | _ => false }
+  | "adder", [w, k], ins =>
+    let ops := ins.map (·.2)
+    -- Adder<UInt>::add: `if (m_count++ == 0) m_sum = b; else m_sum += b;`
+    let m := match ops with | [] => 0 | a :: t => t.foldl (fun s b => (s + b) % 2 ^ w) a
+    if ins.length != k then { model := some ["operand-count"] } else
+    { model := some [fmt w m], spec := [some (fmt w (sumL ops % 2 ^ w))] }
   | "addc", [w], [a, b, ci] =>
     let (s, co) := addC w a.2 b.2 (ci.2 == 1)
     let coSpec := (List.range w).foldl (fun r i => if Spec.carryOut a.2 b.2 (ci.2 == 1) i then r ||| 2 ^ i else r) 0
@@ -200,6 +206,7 @@ structure D where
   propfails : Nat := 0
   hist : List (String × Nat) := []
   whist : List (String × Nat) := []
+  mhist : List (String × Nat) := []       -- Counter API usage patterns exercised (prim:mask)
   exhaustive : Nat := 0
 
 def wclass (w : Nat) : String :=
@@ -225,22 +232,24 @@ def splitIO (toks : List String) : List String × List String :=
   let ins := toks.takeWhile (· != ">")
   (ins, (toks.dropWhile (· != ">")).drop 1)
 
-def isCounter (prim : String) : Bool := prim == "ctr_end" || prim == "ctr_auto" || prim == "ctr_w" || prim == "ctr_uend" || prim == "updown"
+def isCounter (prim : String) : Bool := prim == "ctr_end" || prim == "ctr_w" || prim == "ctr_uend" || prim == "updown"
+
+/-- usage pattern from the case line: bit 0 inc, 1 dec, 2 reset, 3 load -/
+def useOfMask (m : Nat) : CounterUse := ⟨m.testBit 0, m.testBit 1, m.testBit 2, m.testBit 3⟩
 
 def counterCfg (prim : String) (p : List Nat) : CounterCfg :=
   match prim, p with
-  | "ctr_end", [e, _] => counterCfgOfEnd e false
-  | "ctr_auto", [e, _] => counterCfgOfEnd e true
-  | "ctr_w", [w, _] => counterCfgOfWidth w false
-  | "ctr_uend", [w, _] => ⟨w, true, false⟩
+  | "ctr_end", [e, _, m, _] => counterCfgOfEnd e (useOfMask m).autoInc
+  | "ctr_w", [w, _, m, _] => counterCfgOfWidth w (useOfMask m).autoInc
+  | "ctr_uend", [w, _, m, _] => ⟨w, true, (useOfMask m).autoInc⟩
   | "updown", [w, _] => counterCfgOfWidth w false
   | _, _ => ⟨0, false, false⟩
 
 def stepSeq (d : D) (toks : List String) : IO D := do
   let (ins, outs) := splitIO toks
   match ins with
-  | [i, dd, l, lv, e] =>
-    let inc := i == "1"; let dec := dd == "1"; let ld := l == "1"
+  | [i, dd, l, r, lv, e] =>
+    let inc := i == "1"; let dec := dd == "1"; let ld := l == "1"; let rs := r == "1"
     let lv := (parseBits lv).2; let ev := (parseBits e).2
     let w := d.cfg.w
     let reset := d.params.getD 1 0
@@ -262,29 +271,34 @@ def stepSeq (d : D) (toks : List String) : IO D := do
       return { d with mval := o.next, sval := snext, prevDesc := desc }
     else
       let E := match d.prim with
-        | "ctr_end" | "ctr_auto" => d.params.getD 0 1
+        | "ctr_end" => d.params.getD 0 1
         | "ctr_w" => 2 ^ w
         | _ => if ev == 0 then 2 ^ w else ev
       let em1 := match d.prim with
         | "ctr_uend" => endM1 w ev
         | _ => endM1 w E
-      let auto := d.cfg.autoInc
+      let use := useOfMask (d.params.getD 2 0)
+      let resetLast := d.params.getD 3 0 == 1
+      let calls : CounterCalls := ⟨inc, dec, rs, ld, lv⟩
+      let rv := reset % 2 ^ w
       let mut d := d
       -- model: outputs of this cycle from the predicted value
-      let o := counterStep d.cfg d.mval ⟨inc, dec, ld, lv, em1⟩
+      let o := counterStep d.cfg d.mval (callsToIn use resetLast rv em1 calls)
       let mOut := [fmt w o.value, fmtB o.last, fmtB o.first, fmtB o.becomesFirst]
-      if mOut != outs then d ← d.diff s!"{d.prevDesc} in=[inc={i} dec={dd} load={l} lv={lv} end={ev}] model={mOut} impl={outs}"
-      -- definition: modulo-E counter, defined while the value is inside [0,E)
+      let inDesc := s!"in=[inc={i} dec={dd} load={l} reset={r} lv={lv} end={ev}] api-mask={d.params.getD 2 0}"
+      if mOut != outs then d ← d.diff s!"{d.prevDesc} {inDesc} model={mOut} impl={outs}"
+      -- definition: the API definition of the counter (modulo E), defined while the value is inside [0,E)
       if d.sdom then
-        let sn := Spec.wrapStep E d.sval (inc || auto) (dec && !auto) ld lv
+        let sn := Spec.apiStep E rv use resetLast d.sval calls
         let sOut := [fmt w d.sval, fmtB (d.sval + 1 == E), fmtB (d.sval == 0), fmtB (sn == 0)]
-        if sOut != outs then d ← d.fail s!"{d.prevDesc} in=[inc={i} dec={dd} load={l} lv={lv} end={ev}] spec={sOut} impl={outs}"
+        if sOut != outs then d ← d.fail s!"{d.prevDesc} {inDesc} spec={sOut} impl={outs}"
       -- predictions for the next cycle from the implementation's current state
       let base := if implOk then implV else d.mval
-      let o2 := counterStep d.cfg base ⟨inc, dec, ld, lv, em1⟩
-      let snext := Spec.wrapStep E base (inc || auto) (dec && !auto) ld lv
-      let desc := s!"after=[value={fmt w base} inc={i} dec={dd} load={l} lv={lv} end={ev}]"
-      return { d with mval := o2.next, sval := snext, sdom := if ld then decide (lv < E) else decide (base < E), prevDesc := desc }
+      let o2 := counterStep d.cfg base (callsToIn use resetLast rv em1 calls)
+      let snext := Spec.apiStep E rv use resetLast base calls
+      let desc := s!"after=[value={fmt w base} inc={i} dec={dd} load={l} reset={r} lv={lv} end={ev}]"
+      let loads := (use.load && ld) || (use.reset && rs)
+      return { d with mval := o2.next, sval := snext, sdom := if loads then decide (snext < E) else decide (base < E), prevDesc := desc }
   | _ => d.diff s!"unparsed sequential line {toks}"
 
 /-- registered priorityEncoderTree: one input word per clock cycle -/
@@ -380,7 +394,8 @@ partial def loop (h : IO.FS.Stream) (d : D) : IO D := do
     loop h { d with caseId := k, prim := prim, params := params, header := s!"prim={prim} params={params}",
                     reportedDiff := false, reportedFail := false, sawErr := false, cases := d.cases + 1,
                     cfg := cfg, mval := reset % 2 ^ cfg.w, sval := reset % 2 ^ cfg.w, sdom := true, prevDesc := "after=[reset]", histBits := #[], histIn := #[], stages := 0,
-                    whist := bump d.whist (wclass (params.getD 0 0)) }
+                    whist := bump d.whist (wclass (params.getD 0 0)),
+                    mhist := if isCounter prim && prim != "updown" then bump d.mhist s!"{prim}:m{params.getD 2 0}" else d.mhist }
   | ["end"] => loop h d
   | ["stages", l] =>
     let m := longDivisionStages (d.params.getD 0 0) (d.params.getD 2 0)
@@ -404,4 +419,4 @@ partial def loop (h : IO.FS.Stream) (d : D) : IO D := do
 def main : IO Unit := do
   let d ← loop (← IO.getStdin) {}
   let js (h : List (String × Nat)) := ",".intercalate (h.map fun (k, n) => s!"\"{k}\":{n}")
-  IO.println s!"SUMMARY \{\"cases\":{d.cases},\"ops\":{d.ops},\"errs\":{d.errs},\"diffs\":{d.diffs},\"propfails\":{d.propfails},\"hist\":\{{js d.hist}},\"widths\":\{{js d.whist}}}"
+  IO.println s!"SUMMARY \{\"cases\":{d.cases},\"ops\":{d.ops},\"errs\":{d.errs},\"diffs\":{d.diffs},\"propfails\":{d.propfails},\"hist\":\{{js d.hist}},\"widths\":\{{js d.whist}},\"counter_api\":\{{js d.mhist}}}"
